@@ -61,9 +61,9 @@ def concretize(ex, v, model, heap, depth=0):
     if isinstance(v, VTuple):
         return {'$tuple': [concretize(ex, x, model, heap, depth + 1) for x in v.items]}
     if isinstance(v, VOpaque):
-        from .models import absval, field_fn
+        from .models import absval, field_fn, intval
         from .values import flat_kind
-        d = {'$ref': str(ev(v.t)), 'cls': v.cls, 'absval': str(ev(absval(v.t)))}
+        d = {'$ref': str(ev(v.t)), 'cls': v.cls, 'absval': str(ev(absval(v.t))), 'intval': str(ev(intval(v.t)))}
         spec = ex.class_specs.get(v.cls) if v.cls else None
         if spec and depth < 3:
             fields = {}
